@@ -74,6 +74,9 @@ PROPS = {
                     dict(pkg="./x/opchild/lanes", overlay="harness/lanes", harness="^Harness_C20_", pkgname="lanes", native=["rt.go.tmpl", "ante_native.go.tmpl", "lanes_extra.go.tmpl"])],
                 bounds=["fee floor: universe of 2 (quick) / 3 (thorough) ordered denoms, node/chain/fee vectors any sub-set, prices and amounts < 2^128, gas full 64 bit", "system lane: 0..3 messages, exec nesting depth 2, inner lists 0..2", "free lane: whitelist 0..2 valid addresses, granter optional", "redundant relay: 0..2 messages, one configured executor"],
                 outside=["more denoms / messages than the bounds"], assumptions=COMMON_ASSUME + ["price vectors are valid DecCoins (sorted, unique, positive) as config parsing and Params.Validate guarantee", "whitelist entries are valid addresses (Params.Validate)"]),
+    "C16": dict(runs=[oph("^Harness_C16_"), opc("^Harness_C16_")],
+                bounds=["states constructed through the keepers' own setters on an empty chain: L1: 0..1 (quick) / 0..2 (thorough) bridges with consecutive ids, each with 1..m batch infos, 0..m token pairs, outputs, claims; L2: 0..2 validators with powers, both sequences, bridge info present/absent, 0..m denom pairs", "all contents symbolic"],
+                outside=["larger states", "JSON canonical form / byte-level encoding of the genesis file"], assumptions=COMMON_ASSUME),
     "C17": dict(runs=[dict(pkg="./x/ophost/types", overlay="harness/C17", pkgname="types", harness="^Harness_C17_", native=["rt.go.tmpl", "types_native.go.tmpl"])],
                 bounds=["proof depth 0..2 (quick) / 0..4 (thorough)", "three memory layouts of the proof list", "all 64-bit field values, opaque strings of any length"],
                 outside=["proofs deeper than 4"], assumptions=["sha3 is an uninterpreted function: equality of digests is decided by equality of preimage bytes", "address.Module is an uninterpreted injective function"]),
